@@ -18,7 +18,7 @@ RULE = ("Hypothesis draws an abstract program (<= 30 steps of 5 small ints), a b
 ASSUMPTIONS = [
     "commands are sent one at a time (next command only after the final reply and a quiet period)",
     "outcomes the property texts leave open are not judged (counted under classes.skipped_*): mutations aimed at the "
-    "virtual root, RNTO after a re-USER, restart write to a missing file, duplicate permission entries that disagree",
+    "virtual root, restart write to a missing file, duplicate permission entries that disagree",
     "reference model: vlib/ftpmodel.py (written from RFC 959/3659 + the property statements)",
 ]
 REPLAY_ATTEMPTS = 2
